@@ -430,7 +430,7 @@ func c31Other(c *agent.Config) *agent.Config {
 // that one call: inputs untouched (including the unused capacity of their
 // lists), every setting per the rule table, and the result still the same
 // value after the same earlier source has been merged with something else.
-func c31Merge(x *vkit.Ctx, what string, a, b *agent.Config, spare int, sameArg bool) (*agent.Config, bool) {
+func c31Merge(x *vkit.Ctx, what string, a, b *agent.Config, spare int, sameArg, probe bool) (*agent.Config, bool) {
 	a1, b1 := c31DeepCopyCap(a, spare), c31DeepCopyCap(b, spare)
 	if sameArg {
 		b, b1 = a, a1 // one object as both arguments
@@ -446,17 +446,6 @@ func c31Merge(x *vkit.Ctx, what string, a, b *agent.Config, spare int, sameArg b
 	}
 	if l := c31SpareTouched(b1); l != "" {
 		x.Violationf("input-memory-written:later", "%s: MergeConfig wrote into the unused capacity of its second argument's list %s", what, l)
-		return nil, false
-	}
-	// what the next calls (or a restart of the caller's loop) leave behind: the
-	// value returned by this merge must not change when the same sources are
-	// merged again with something else
-	snap := c31DeepCopy(got)
-	_ = agent.MergeConfig(a1, c31Other(b))
-	_ = agent.MergeConfig(c31Other(a), b1)
-	if p := c31FirstDiff(snap, got); p != "" {
-		x.Violationf("result-changed-by-later-merge:"+p, "%s: the merged configuration had %s = %v; after two more MergeConfig calls on the same sources it has %v (results share memory)",
-			what, p, c31Field(snap, p).Interface(), c31Field(got, p).Interface())
 		return nil, false
 	}
 	if p := c31FirstDiff(a, a1); p != "" {
@@ -517,6 +506,20 @@ func c31Merge(x *vkit.Ctx, what string, a, b *agent.Config, spare int, sameArg b
 				what, p, c31Rules[p], av.Interface(), bv.Interface(), gv.Interface(), want.Interface())
 			return nil, false
 		}
+	}
+	// what the next calls (or a restart of the caller's loop) leave behind: the
+	// value returned by this merge must not change when the same sources are
+	// merged again with something else
+	if !probe {
+		return got, true
+	}
+	snap := c31DeepCopy(got)
+	_ = agent.MergeConfig(a1, c31Other(b))
+	_ = agent.MergeConfig(c31Other(a), b1)
+	if p := c31FirstDiff(snap, got); p != "" {
+		x.Violationf("result-changed-by-later-merge:"+p, "%s: the merged configuration had %s = %v; after two more MergeConfig calls on the same sources it has %v (results share memory)",
+			what, p, c31Field(snap, p).Interface(), c31Field(got, p).Interface())
+		return nil, false
 	}
 	return got, true
 }
@@ -584,23 +587,23 @@ func bodyC31(c c31Case, x *vkit.Ctx) {
 	}
 	if c.SameAB {
 		x.Label("same-object-as-both-arguments")
-		if _, ok := c31Merge(x, "Merge(a,a)", c.A, c.A, c.Spare, true); !ok {
+		if _, ok := c31Merge(x, "Merge(a,a)", c.A, c.A, c.Spare, true, false); !ok {
 			return
 		}
 	}
-	ab, ok := c31Merge(x, "Merge(a,b)", c.A, c.B, c.Spare, false)
+	ab, ok := c31Merge(x, "Merge(a,b)", c.A, c.B, c.Spare, false, true)
 	if !ok {
 		return
 	}
-	left, ok := c31Merge(x, "Merge(Merge(a,b),c)", ab, c.C, c.Spare, false)
+	left, ok := c31Merge(x, "Merge(Merge(a,b),c)", ab, c.C, c.Spare, false, true)
 	if !ok {
 		return
 	}
-	bc, ok := c31Merge(x, "Merge(b,c)", c.B, c.C, c.Spare, false)
+	bc, ok := c31Merge(x, "Merge(b,c)", c.B, c.C, c.Spare, false, false)
 	if !ok {
 		return
 	}
-	right, ok := c31Merge(x, "Merge(a,Merge(b,c))", c.A, bc, c.Spare, false)
+	right, ok := c31Merge(x, "Merge(a,Merge(b,c))", c.A, bc, c.Spare, false, false)
 	if !ok {
 		return
 	}
